@@ -14,7 +14,7 @@ CLAIMS = {
             "every command frame is compared byte for byte with the frame an independent reference encoder builds from the caller's arguments, over full per-field domains, positional and keyword calls, device-id bytes and six DST zones for schedules; rejected arguments must raise with at most the login frame written",
             "fixed bytes of templates no repository test pins are a transcription of the pinned tree (regression oracle)", "5/C02"),
     "C03": ("model_checking", "stateless exploration of operation sequences and of all reply-order interleavings of two API instances on a controlled asyncio loop, plus BFS with state hashing",
-            "all operation sequences to depth 3 (thorough 5) incl. failing and aborted variants, the same with a frozen clock and in non-UTC zones, and all reply-order interleavings of two instances (same and different host) are executed on the real client; each connection's frame log is checked against the login-then-commands session model; the state graph over (object state, module-state digest) closes",
+            "all operation sequences to depth 3 (thorough 5) incl. failing, aborted, slow-reply and abandoned (cancelled) variants and special session ids, one connection living through 300 (600) operations, the same with a frozen clock and in non-UTC zones, and all reply-order interleavings of two instances (same and different host) are executed on the real client; each connection's frame log is checked against the login-then-commands session model; the state graph over (object state, module-state digest) closes",
             "deterministic single-threaded asyncio; the only scheduling freedom is which pending read is answered next; state outside the fingerprint (closures, C objects) is covered only to the stateless depth", "5/C03"),
     "C04": ("model_checking", "explicit-state enumeration of the CRC-16 automaton (65,536 states x 256 inputs) replayed through the real signer, closed by induction on length",
             "all strings of length 0..2 reach every CRC state; every transition from every state is replayed through the real signer (thorough), which covers all byte strings by induction",
@@ -26,7 +26,7 @@ CLAIMS = {
             "every length 0..400 x magic variants x fills, captures +-1..3 bytes and every model code are sent to a running bridge; callbacks, warnings, loop exception-handler calls and log records are compared with the gate predicate",
             "content inside gate-passing frames with a known model code is not judged here", "5/C06"),
     "C07": ("model_checking", "stateless exploration of all datagram sequences x port assignments x event-loop service orders x raising callbacks on a controlled selector",
-            "every order in which the loop can service ready ports is enumerated for every datagram sequence to the bound, with the user callback raising on chosen invocations; the per-port callback log must equal the reference decode of that port's valid datagrams",
+            "every order in which the loop can service ready ports is enumerated for every datagram sequence to the bound, with the user callback raising (four exception kinds) on chosen invocations; the per-port callback log must equal the reference decode of that port's valid datagrams; plus seven callback shapes, the four well-known default ports and eleven kinds of sender address",
             "one datagram is read per readiness event (asyncio selector datagram transport); kernel queues are FIFO per socket", "5/C07"),
     "C08": ("exploration", "bounded exhaustive input enumeration of reply fields through the real state queries against a reference reply encoder",
             "every reply field is swept over its whole domain through get_state / get_shutter_state / get_breeze_state on a real stream and compared with the reference decode",
@@ -38,13 +38,13 @@ CLAIMS = {
             "record counts 0..8, all ids, all masks, all minutes, ten zones and transition dates; the record captured from create_schedule is listed back and must parse to the caller's arguments",
             "zoneinfo is the independent oracle; glibc zone code is what the library calls", "5/C10"),
     "C11": ("exploration", "bounded exhaustive input enumeration: all 1440 minutes x zones x dates under a virtual clock",
-            "every minute of the day in every listed zone on every listed date is encoded and decoded under a pinned clock and the epoch value compared with zoneinfo",
+            "every minute of the day in every listed zone on every listed date is encoded and decoded under a pinned clock and the epoch value compared with zoneinfo; every call is also run with the clock passing midnight before each of its clock reads",
             "time-machine pins time.time/localtime/strftime; zones via TZ+tzset", "5/C11"),
     "C12": ("exploration", "complete enumeration of the finite input space (plus second-use probes and a python -O pass)",
             "all 127 subsets in every accepted form, all sequences of length <=3, all masks -1..256: the space is finite and enumerated completely",
             "odd masks are not judged", "5/C12"),
     "C13": ("exploration", "bounded exhaustive input enumeration: weekdays x day sets x minute grid x zones under a virtual clock",
-            "7 weekdays x 128 day sets x a minute grid with equality and both neighbours x zones east and west of UTC, compared with an earliest-occurrence reference",
+            "7 weekdays x 128 day sets x a minute grid with equality and both neighbours x zones east and west of UTC, compared with an earliest-occurrence reference; every call is also run with the clock passing midnight / the start minute before each of its clock reads",
             "time-machine pins the clock; the local date supplies the weekday", "5/C13"),
     "C14": ("exploration", "complete enumeration of all 1440 x 1440 pairs",
             "every (start, end) pair is evaluated against modular arithmetic", "none beyond the HH:MM alphabet", "5/C14"),
@@ -55,10 +55,10 @@ CLAIMS = {
             "every path of the login/get-state/command/swing exchange is executed against a fake device and the frames decoded and compared with the merge model; an empty reply at every step must not report success",
             "socketpair stands in for TCP; requests deviate from a base in quick, full product in thorough", "5/C16"),
     "C17": ("model_checking", "stateless exploration of all action sequences to a depth + BFS with state hashing to a fixpoint on real UDP sockets + TLC-checked TLA+ model with every edge replayed on the implementation",
-            "all enabled sequences over start/stop/send/occupy/release/context actions (bodies raising three kinds of exception) are executed on a real bridge with real sockets; after every action is_running, port bindability and probe delivery are compared with the lifecycle model; BFS to a fixpoint; a TLA+ model checked by TLC with every edge of its state graph replayed on the bridge; in-flight datagrams for every delay before stop; twin bridges (disjoint and shared port); unusable port numbers",
+            "all enabled sequences over start/stop/send/occupy/release/context actions (bodies raising three kinds of exception) are executed on a real bridge with real sockets; after every action is_running, port bindability and probe delivery are compared with the lifecycle model; BFS to a fixpoint; a TLA+ model checked by TLC with every edge of its state graph replayed on the bridge; in-flight datagrams for every delay before stop; twin bridges (disjoint and shared port); unusable port numbers; start() cancelled after every number of loop iterations; one bridge moved to a second event loop",
             "ports are private to the harness (flock-ed block outside the ephemeral range)", "5/C17"),
     "C18": ("model_checking", "stateless exploration of all action sequences to a depth + BFS with state hashing to a fixpoint on a controlled loop + TLC-checked TLA+ model with every edge replayed on the implementation",
-            "all enabled sequences over 12 actions (connect, refused, three operations, four context bodies, refused context, device drop, disconnect) for both API classes are executed on the real client; after every action the connected flag and the device-side end-of-stream are compared with the lifecycle model; BFS to a fixpoint; a TLA+ model checked by TLC with every edge replayed on the client; twin clients; a real-TCP subset",
+            "all enabled sequences over 14 actions (connect, refused, four kinds of operation incl. one abandoned by its caller, five context bodies, refused context, device drop, disconnect) for both API classes are executed on the real client; after every action the connected flag and the device-side end-of-stream are compared with the lifecycle model; BFS to a fixpoint; a TLA+ model checked by TLC with every edge replayed on the client; twin clients; one client moved to a second event loop; a real-TCP subset",
             "socketpair stands in for TCP except in the real-TCP subset of the thorough tier", "5/C18"),
     "C19": ("exploration", "complete enumeration of the finite table space (three construction styles, four rounds, a python -O pass)",
             "all 9 types x 4 classes and every category in both port tables are enumerated", "none", "5/C19"),
